@@ -35,7 +35,8 @@ def main(argv=None):
     import logging
     logging.disable(logging.WARNING)
 
-    from . import report
+    from . import report, pin
+    pin.deterministic_empty()
     mod = importlib.import_module('vmc.checks.' + pid.lower())
     ctx = report.Ctx(pid, args.tier, seed, mod.LEVEL, only=args.only.split(',') if args.only else None)
 
